@@ -99,6 +99,7 @@ def time_layouts():
         'h:mm ap': z3.Concat(H12, lit(':'), MIN, lit(' '), ap),
         'h ap': z3.Concat(H12, lit(' '), ap),
         'hap': z3.Concat(H12, alt(['am', 'pm'])),
+        'hmmap': z3.Concat(H12, MIN, z3.Union(lit(''), lit(' ')), alt(['am', 'pm', 'a.m.', 'p.m.'])),      # 730pm, 1230 am
     }
 
 
@@ -109,6 +110,8 @@ def parse_time_layout(name, s):
         if body.endswith(t):
             ap, body = t[0], body[:-len(t)].strip()
             break
+    if ':' not in body and len(body) >= 3:
+        body = body[:-2] + ':' + body[-2:]                # hour and two-digit minute written without a colon
     parts = [int(x) for x in body.split(':')]
     h = parts[0]
     m = parts[1] if len(parts) > 1 else 0
@@ -193,7 +196,7 @@ def _seq_extractor(kind):
 LANGMOD = {'en': 'english', 'es': 'spanish', 'fr': 'french', 'pt': 'portuguese', 'de': 'german', 'it': 'italian', 'nl': 'dutch'}
 
 
-def real_patterns(kind, culture):
+def real_patterns(kind, culture, side='extractor'):
     import importlib
     if kind in SEQ_KINDS:
         return [rv.re.pattern if hasattr(rv.re, 'pattern') else rv.re for rv in _seq_extractor(kind).regexes]
@@ -207,6 +210,12 @@ def real_patterns(kind, culture):
         except TypeError:
             cfg = cls()
         return [r.pattern for r in cfg.date_regex_list]
+    if kind == 'time' and side == 'parser':
+        # the patterns the time PARSER tries on an extracted time (a time the extractor finds but no parser pattern matches stays unresolved)
+        from recognizers_date_time.date_time.english.common_configs import EnglishCommonDateTimeParserConfiguration
+        cfg = EnglishCommonDateTimeParserConfiguration().time_parser.config
+        env.assert_repo(type(cfg))
+        return [r.pattern for r in cfg.time_regexes] + [cfg.at_regex.pattern]
     if kind == 'time':
         m = importlib.import_module('recognizers_date_time.date_time.%s.time_extractor_config' % lang)
         cls = [getattr(m, n) for n in dir(m) if n.endswith('TimeExtractorConfiguration') and n.lower().startswith(lang[:4])][0]
@@ -227,7 +236,7 @@ def layouts_of(kind, culture):
 def inclusion(slice_, timeout):
     kind, culture, name = slice_['kind'], slice_['culture'], slice_['layout']
     t = time.time()
-    pats = real_patterns(kind, culture)
+    pats = real_patterns(kind, culture, slice_.get('side', 'extractor'))
     R, dropped = [], 0
     for p in pats:
         try:
@@ -290,7 +299,7 @@ def _api_ok(kind, culture, name, s):
 def inclusion__replay(slice_, cex):
     import regex
     w, kind, culture = cex['witness'], cex['kind'], cex['culture']
-    matched = any(regex.fullmatch(p, w, flags=regex.I | regex.S) for p in real_patterns(kind, culture))
+    matched = any(regex.fullmatch(p, w, flags=regex.I | regex.S) for p in real_patterns(kind, culture, slice_.get('side', 'extractor')))
     ok, got = _api_ok(kind, culture, cex['layout'], w)
     return {'reproduced': (not matched) and (not ok), 'detail': '%r: fully matched by a real pattern: %s; recognised correctly through the API: %s (%r)' % (w, matched, ok, got)}
 
